@@ -439,7 +439,10 @@ pub fn run(ctx: &Ctx, prop: &str) -> Report {
         rep.count("corpus:own-constants");
     }
     // lengths across 2^16 and 2^24 and at the 10 MiB account limit (monitor only)
-    for n in [65_535usize, 65_536, 65_537, 65_536 + 82, 65_536 + 165, 65_536 + 166, 65_536 + 355, 131_072 + 165, (1 << 24) + 165, (1 << 24) + 82, 10 * 1024 * 1024] {
+    // plus lengths around every bound the crate's sources spell out (read at run time)
+    let mined: Vec<usize> = crate::mined_ints("generic-token/src", 400, 48 * 1024 * 1024).into_iter().rev().take(4).flat_map(|n| [n - 1, n, n + 1, n + 166]).collect();
+    rep.count(&format!("mined-from-source:lengths={:?}", mined));
+    for n in [65_535usize, 65_536, 65_537, 65_536 + 82, 65_536 + 165, 65_536 + 166, 65_536 + 355, 131_072 + 165, (1 << 24) + 165, (1 << 24) + 82, 10 * 1024 * 1024].into_iter().chain(mined.into_iter()) {
         for &(v45, v108, v165) in &[(1u8, 1u8, 1u8), (1, 1, 2), (0, 1, 2), (1, 0, 1), (1, 1, 0), (2, 2, 3)] {
             let mut b = vec![0u8; n];
             for x in b.iter_mut().take(400) {
